@@ -308,7 +308,12 @@ def _sweep_work(task):
                                  f"after including every header: {ns}"))
     declared = [(i, n) for i, (n, c) in enumerate(names) if n in T]
     with open(sweep_file, "w") as f:
-        f.write("".join(f"#include <{h}>\n" for h in hdrs) + "".join(f"{n} v_{i};\n" for i, n in declared))
+        # every name as an object, a pointer, an array element type, a parameter
+        # and a return type, a cast and a sizeof operand: "usable as a type" in
+        # every syntactic position (also makes the unit several thousand tokens long)
+        f.write("".join(f"#include <{h}>\n" for h in hdrs) + "".join(
+            f"{n} v_{i};\n{n} *p_{i}, a_{i}[2];\n{n} *f_{i}({n} x, {n} *);\n"
+            f"unsigned long s_{i} = sizeof({n}) + sizeof(({n} *)0);\n" for i, n in declared))
     prob, info = run_cell(sweep_file, std, form, sc)
     if prob:
         fails.append((prob[0], case, prob[1]))
